@@ -80,7 +80,7 @@ static void run_unit(int n, char **lines) {
 
 /* numeric CFG line (the model reads the same numbers):
  *   CFG <boot> <nshutters> <late_us> <mode 0=unit 1=sys> [sys only: <btn_type> <btn_flags> <motor_mode> <up_ms> <down_ms>
- *        <startup_ms> <rsflags> <time1_ms> <time2_ms> <sentdefault> <button shutter mask> <1 + relay index of the extra button> <us charged per counter read>]
+ *        <startup_ms> <rsflags> <time1_ms> <time2_ms> <sentdefault> <button shutter mask> <1 + relay index of the extra button> <us charged per counter read> <action-trigger caps of the pair buttons>]
  * board: shutter i = relays 2i (up, gpio 1+2i) and 2i+1 (down, gpio 2+2i), both on channel i;
  *        sys with buttons: see a[14]/a[15] below (default: shutter i < 3 has input gpios 9+2i -> up relay, 10+2i -> down relay) */
 static void build_cfg(const char *line, char *out, size_t cap, int *mode) {
@@ -108,8 +108,10 @@ static void build_cfg(const char *line, char *out, size_t cap, int *mode) {
       o += snprintf(out + o, cap - o, " inputs=");
       for (int i = 0; i < n && k < 3; i++) {
         if (!(mask >> i & 1)) continue;
-        o += snprintf(out + o, cap - o, "%s%d:%lld:%lld:%d:255:0,%d:%lld:%lld:%d:255:0", first ? "" : ",",
-                      9 + 2 * k, a[4], a[5], 1 + 2 * i, 10 + 2 * k, a[4], a[5], 2 + 2 * i);
+        /* a[17] > 0: the pair buttons are action-trigger capable (caps a[17]) on AT channels 5+2k, 6+2k */
+        o += snprintf(out + o, cap - o, "%s%d:%lld:%lld:%d:%d:%lld,%d:%lld:%lld:%d:%d:%lld", first ? "" : ",",
+                      9 + 2 * k, a[4], a[5], 1 + 2 * i, a[17] > 0 ? 5 + 2 * k : 255, a[17],
+                      10 + 2 * k, a[4], a[5], 2 + 2 * i, a[17] > 0 ? 6 + 2 * k : 255, a[17]);
         k++; first = 0;
       }
       if (a[15] >= 1 && a[15] <= 2 * n)
